@@ -711,8 +711,11 @@ func horzSegSort(hs1, hs2 *HorzSegment) int {
 	if hs1.leftOp.pt.X == hs2.leftOp.pt.X {
 		return 0
 	}
+	if hs1.leftOp.pt.X < hs2.leftOp.pt.X {
+		return -1
+	}
 
-	return -1
+	return 1
 }
 
 func (c *clipperBase) convertHorzSegsToJoins() {
